@@ -14,9 +14,12 @@
 (*                        for >= the timeout since the later of idleStart  *)
 (*                        and the last client byte (or shutdown began)     *)
 (*  closed-while-busy     closed while busy although nothing went wrong    *)
-(*  handler-leaked        peer gone / server closed, every application     *)
-(*  task-leaked           returned, yet the handler (or one of its tasks)  *)
-(*                        is still alive at the quiescent point            *)
+(*  handler-lingers       peer gone / server closed, every application     *)
+(*                        returned, yet the handler is still alive at the  *)
+(*                        quiescent point (it does finish later)           *)
+(*  handler-leaked        ... and is still alive at the final quiescent    *)
+(*                        point, after every timeout has run out           *)
+(*  task-leaked           handler finished but one of its tasks is alive   *)
 (***************************************************************************)
 EXTENDS Obs
 
@@ -38,6 +41,9 @@ AllReturned(o) == \A a \in DOMAIN o.apps : App(o, a).done # ""
 ParkedPipeline(o) == \E a \in DOMAIN o.reqs : Req(o, a).head /\ Req(o, a).idx > 1 /\ App(o, a).started = 0
                                                 /\ Req(o, a).ver # "2"
 
+Cause(o) == IF o.reset THEN "peer-reset" ELSE IF o.gone THEN "peer-eof"
+            ELSE IF o.tfail THEN "write-failed" ELSE "server-close"
+
 Clauses(o, ev, o2, p) ==
     CASE ev.e = "t_close" ->
             IF ~NoCause(o) \/ ~AllAppsQuiet(o) THEN <<>>
@@ -54,10 +60,11 @@ Clauses(o, ev, o2, p) ==
          \o (IF /\ (o.gone \/ o.reset \/ o.closedAt >= 0) /\ AllReturned(o) /\ o.opened
                 /\ ~o.paused
              THEN (IF ev.handler
-                   THEN <<F("handler-leaked",
-                            IF ParkedPipeline(o) THEN "pipelined-request-parked"
-                            ELSE IF o.closedAt >= 0 THEN "after-server-close"
-                            ELSE IF p.idle THEN "peer-eof-while-idle" ELSE "peer-eof-while-busy")>>
+                   THEN (IF o.final
+                         THEN <<F("handler-leaked",
+                                  IF ParkedPipeline(o) THEN "pipelined-request-parked" ELSE Cause(o))>>
+                         ELSE IF ParkedPipeline(o) THEN <<>>
+                         ELSE <<F("handler-lingers", Cause(o))>>)
                    ELSE IF ev.live > 0 THEN <<F("task-leaked", o.cfg.carrier)>> ELSE <<>>)
              ELSE <<>>)
       [] OTHER -> <<>>
